@@ -213,7 +213,11 @@ def r2(ctx):
     # outer surface property: last duct, outer face
     cls = repo.cls('assembly', 'Assembly')
     pf, pe = U.property_return(repo, cls, 'duct_outer_surf_temp')
-    ctx.require(pe is not None and src(pe) ==
+    # a trivial getter of the same class standing for the field look-up
+    # (self.temp_duct_surf) is read through
+    px = U.resolve_self_props(repo, cls, pe, keep=('active_region',)) \
+        if pe is not None else None
+    ctx.require(px is not None and src(px) ==
                 "self.active_region.temp['duct_surf'][-1, -1, :]", 'C02.R2',
                 pf, pe if pe is not None else pf.node,
                 'outer surface = last duct, outer face',
@@ -275,8 +279,15 @@ def r3(ctx):
     fm = [st for tg, st in U.stores(cg.node)
           if src(tg) == 'self.coolant_gap_temp' and
           isinstance(st, ast.AugAssign)]
+    # the increment is the value of self._flow_model(dz, <duct temps>),
+    # whether held in a local (recorded: dT) or written in place; decided on
+    # the flow-sensitive expansion of the right-hand side
+    inc = U.value_at(cg.node, fm[0].value, fm[0].lineno) \
+        if len(fm) == 1 else None
     ok = len(fm) == 1 and isinstance(fm[0].op, ast.Add) and \
-        src(fm[0].value) == 'dT' and \
+        isinstance(inc, ast.Call) and \
+        call_name(inc) == 'self._flow_model' and not inc.keywords and \
+        [src(a) for a in inc.args] == list(cg.params[1:3]) and \
         [(src(t_), p) for t_, p in U.guards(fm[0])] == \
         [("self.model == 'flow'", True)]
     ctx.require(ok, 'C02.R3', cg, fm[0] if fm else cg.node,
